@@ -552,6 +552,72 @@ def r15_4(ctx, fx, prs):
     ctx.floor(rid, n, 120, "member x side obligations")
 
 
+GUARD_IGNORE = {"marked_empty", "is_empty"}
+
+
+def _state_guards(f, stream_op):
+    """Predicate-name sets of the `if` conditions (made only of const bool members of *this) whose
+    then-branch streams something (`<<` for the writer, `>>` for the reader)."""
+    out = []
+    for i in f.walk():
+        if i["k"] != "if":
+            continue
+        cond = f.deref(i["c"][2])
+        then = f.deref(i["c"][3])
+        if cond is None or then is None or f.deref(i["c"][4]) is not None:
+            continue      # only sections without an alternative are optional
+        preds = set()
+        other = False
+        for x in f.walk(cond):
+            if x["k"] == "mcall":
+                o = f.call_obj(x)
+                if (o is None or f.root(o) == ("this",)) and not f.call_args(x):
+                    preds.add(f.call_name(x))
+                else:
+                    other = True
+            elif x["k"] == "binop" and x.get("op") not in ("&&", "||"):
+                other = True
+            elif x["k"] in ("ref", "member", "call", "ocall", "int", "str", "assign"):
+                if x["k"] == "member" and f.parent.get(x["i"]) is not None and f.parent[x["i"]]["k"] == "mcall":
+                    continue
+                if x["k"] == "ref" and x.get("dk") in ("local", "param") and "stream" in x.get("t", ""):
+                    other = True      # a stream test such as `!(s >> str)`
+                elif x["k"] in ("call", "ocall", "int", "str", "assign"):
+                    other = True
+        if other or not preds or not (preds - GUARD_IGNORE):
+            continue
+        streams = any(y["k"] in ("ocall", "binop", "call") and (y.get("op") == stream_op or f.call_name(y) == "operator" + stream_op)
+                      for y in f.walk(then))
+        if streams:
+            out.append((frozenset(preds - GUARD_IGNORE), i))
+    return out
+
+
+def r15_5(ctx, prs):
+    rid = "R15.5"
+    ctx.rule(rid, "optional sections: when the writer emits a section only in some states of the object (an `if` over const state predicates of *this whose body streams output), the reader consumes a section under a guard over the same predicates (emptiness tests aside), and vice versa — otherwise a dump written in such a state is read with the section skipped or expected in vain")
+    n = 0
+    for key in sorted(prs):
+        d = prs[key]
+        if "ascii_dump" not in d or "ascii_load" not in d:
+            continue
+        w, r = d["ascii_dump"], d["ascii_load"]
+        gw = _state_guards(w, "<<")
+        gr = _state_guards(r, ">>")
+        if not gw and not gr:
+            continue
+        n += 1
+        inst = "%s optional sections" % key
+        sw = sorted(sorted(g) for g, _ in gw)
+        sr = sorted(sorted(g) for g, _ in gr)
+        if sw == sr:
+            ctx.ok(rid, inst, w.where(gw[0][1]) if gw else r.where(gr[0][1]))
+        else:
+            at = (r.where(gr[0][1]) if gr else r.where())
+            ctx.violation(rid, inst, at, "the writer guards its optional sections by %s, the reader by %s" % (sw, sr))
+    ctx.floor(rid, n, 1, "classes with state-dependent sections")
+
+
 def run(ctx):
     ctx.explanation = ("C15 writer/reader agreement over all ascii_dump/ascii_load pairs (linearised token, sub-object and member sequences; "
                        "status flag polarity); decides the agreement clause, not number I/O nor semantic equality of the loaded object")
@@ -562,5 +628,6 @@ def run(ctx):
     r15_1_2(ctx, fx, prs)
     r15_3(ctx, fx, prs)
     r15_4(ctx, fx, prs)
+    r15_5(ctx, prs)
 
 
